@@ -210,12 +210,18 @@ fn long_pair(rng: &mut Rng, lo: usize, hi: usize, short_hi: usize, kind: usize) 
 }
 
 impl Prop for C12 {
-    fn gen(&mut self, rng: &mut Rng, _tier: Tier, i: usize, _n: usize) -> Val {
+    fn gen(&mut self, rng: &mut Rng, tier: Tier, i: usize, _n: usize) -> Val {
         // the long-string stream: 1 case in 400 with texts of 2000..2200 units each (kinds 0-2, 5: halves) or
         // 5000..20000 units against at most 40 (kinds 3, 4); 1 case in 25 of middle size (50..400 units; against
         // at most 60 for kinds 3, 4).  Flags drawn at random (the index is fixed modulo 16).
-        if i % 400 == 199 || i % 25 == 12 {
-            let long = i % 400 == 199;
+        // (thorough tier, 300 000 cases: 1 in 4000 long and 1 in 100 of middle size — the same absolute order of
+        // magnitude of model time as the rest of the run; at the quick rates it did not finish within 33 minutes)
+        let (every_long, every_mid) = match tier {
+            Tier::Quick => (400, 25),
+            Tier::Thorough => (4000, 100),
+        };
+        if i % every_long == 199 || i % every_mid == 12 {
+            let long = i % every_long == 199;
             let fl = rng.below(16);
             let (g, swap, sid, norm) = (fl & 1 != 0, fl & 2 != 0, fl & 4 != 0, fl & 8 != 0);
             let kind = rng.below(6);
